@@ -29,7 +29,8 @@ REQUIRED_BUCKETS = ["none-result", "non-working-excluded", "metric-missing", "so
                     "zero-capacity", "zero-total-weight", "soc-on-limit", "monotonicity-checked",
                     "scale-invariance-checked", "integration:cache-dropped-on-stop-working",
                     "integration:nan-metric-dropped", "integration:silent-battery-timed-out",
-                    "integration:soc-first-accessed-after-status-known"]
+                    "integration:soc-first-accessed-after-status-known",
+                    "integration:device-clock-differs-from-local-clock"]
 REQUIRED_COUNTERS = ["soc_values_compared", "capacity_values_compared", "integration_checkpoints"]
 ASSUMPTIONS = ["metric data objects built directly (ComponentMetricsData); timestamps irrelevant"]
 
@@ -234,7 +235,11 @@ def gen_integration(rng: Any) -> dict[str, Any]:
         ev.append([round(t + 0.01 * b, 3), "data", b, d])
     # pool.soc is first accessed either before anything happened or after some status/data events (the aggregator is
     # created lazily with the working set known at that moment)
-    return {"nb": nb, "events": ev, "checkpoint": round(t + 1.0, 3),
+    # device clocks: a battery's samples are stamped by the device, which may lag or lead the local clock
+    # (only lagging clocks: the sender's rate limiter sleeps min_update_interval - (now - newest sample timestamp), so a
+    # leading device clock merely postpones updates, which is not what this property is about)
+    return {"clock_off": [rng.choice([0.0, 0.0, -30.0, -3.0, -0.5]) for _ in range(nb + 1)],
+            "nb": nb, "events": ev, "checkpoint": round(t + 1.0, 3),
             "access_after_event": rng.choice([0, 0, rng.randint(1, max(1, len(ev) // 2))])}
 
 
@@ -290,7 +295,8 @@ async def _drive_integration(case: dict[str, Any], out: dict[str, Any]) -> None:
             full = {"cap": d["cap"] if d["cap"] is not None else float("nan"), "soc": d["soc"] if d["soc"] is not None else float("nan"),
                     "lo": d["lo"] if d["lo"] is not None else float("nan"), "hi": d["hi"] if d["hi"] is not None else float("nan"),
                     "il": -1000.0, "el": 0.0, "eu": 0.0, "iu": 1000.0}
-            await api.feed(10 + b, batdata.mk_battery(10 + b, full, datetime.now(timezone.utc)))
+            off = (case.get("clock_off") or [0.0] * (b + 1))[b]
+            await api.feed(10 + b, batdata.mk_battery(10 + b, full, datetime.now(timezone.utc) + timedelta(seconds=off)))
     dt = t0 + case["checkpoint"] - loop.time()
     if dt > 0:
         await asyncio.sleep(dt)
@@ -317,6 +323,8 @@ def check_integration(case: dict[str, Any], rec: Any) -> None:
     working: set[int] = set()  # nothing is working until the first status message
     MAXAGE = 2.0
     accessed = False
+    if any((case.get("clock_off") or [0.0])[1:case["nb"] + 1]):
+        rec.bucket("integration:device-clock-differs-from-local-clock")
     for n_ev, e in enumerate(case["events"]):
         if not accessed and n_ev >= case.get("access_after_event", 0):
             accessed = True
